@@ -257,11 +257,13 @@ def run(repo: Repo, rep, tier: str):
             clears = any(isinstance(c, ast.Call) and norm(c.func) == "LOGGERS.clear" for c in ast.walk(rs))
             return None if (guarded and clears) else "LOGGERS is not cleared by the initial equity sample of a session"
         if key == "jesse/helpers.py:CACHED_CONFIG":
-            sc = repo.func("jesse/config.py", "set_config")
-            clears = any(isinstance(c, ast.Call) and norm(c.func).endswith("CACHED_CONFIG.clear") for c in ast.walk(sc))
-            if clears and must("set_config"):
-                return None
-            return f"memo of config look-ups written by {w} is not invalidated on entry (set_config does not clear it): a later session is served the fee / exchange type / leverage of an earlier one"
+            # cleared on entry either by set_config itself or by the reset_config() that _isolated_backtest calls right before it
+            for fname in ("set_config", "reset_config"):
+                f_ = repo.func("jesse/config.py", fname)
+                clears = any(isinstance(c, ast.Call) and norm(c.func).endswith("CACHED_CONFIG.clear") for c in ast.walk(f_))
+                if clears and must(fname):
+                    return None
+            return f"memo of config look-ups written by {w} is not invalidated on entry (neither set_config nor an entry-time reset_config() clears it completely): a later session is served the fee / exchange type / leverage of an earlier one"
         if kind == "container":
             if not w:
                 return None        # read-only table
